@@ -1078,6 +1078,7 @@ class System(BaseModel, Serializable):
 
                 residual_hist = deque(maxlen=anderson_mem)
                 coupling_hist = deque(maxlen=anderson_mem)
+                scc_written = set()  # every output written by the loop's components (not only the coupling variables)
 
                 def _end_conditions_met():
                     """Helper to compute residual, update history, and check end conditions."""
@@ -1108,7 +1109,7 @@ class System(BaseModel, Serializable):
                     if k >= max_fpi_iter:
                         self.logger.warning(f'FPI did not converge in {max_fpi_iter} iterations for SCC {scc}: '
                                             f'{max_error} > tol {fpi_tol}. Some samples will be returned as NaN.')
-                        for var in coupling_prev:
+                        for var in scc_written.union(coupling_prev):  # never return stale values of any loop output
                             y[var][~samples.converged_idx, ...] = np.nan
                         samples.valid_idx = np.logical_and(samples.valid_idx, samples.converged_idx)
                         return True
@@ -1140,6 +1141,7 @@ class System(BaseModel, Serializable):
                                 norm_status[var] = not call_model
                                 is_computed[var] = True
                             y[var][samples.curr_idx, ...] = arr
+                            scc_written.add(var)
 
                     # Compute residual and check end conditions
                     if _end_conditions_met():
